@@ -662,6 +662,31 @@ def w8(led, rid, ctx):
     led.floor(rid, "root fixings in PB preprocessing", n, 1)
 
 
+def w9(led, rid, ctx):
+    """the `--time-limit` option (documented in milliseconds) reaches the solvers through
+    Duration::from_millis"""
+    import json
+    p = ctx.bin
+    n = 0
+    for f in p.fns.values():
+        if not f.file.endswith("bin/pumpkin-solver/main.rs") or "/tests" in f.file:
+            continue
+        for g in f.with_closures():
+            R = resolver(g)
+            for c in g.calls:
+                if c.name != "map" or len(c.args) < 2:
+                    continue
+                recv = R.operand(c.args[0])
+                if "time_limit" not in recv.fields():
+                    continue
+                n += 1
+                conv = show(R.operand(c.args[1]))
+                led.check("from_millis" in conv, rid, "time-limit-in-milliseconds", c.span, "Duration::from_millis",
+                          "the time limit is converted with %s: the budget handed to the search is off by a factor "
+                          "of 1000 and the solver stops (or never stops) long before the user's limit" % conv[:60])
+    led.floor(rid, "conversions of the --time-limit option", n, 1)
+
+
 def run(ctx, led):
     run_rule(led, "W1", "GUARDED-SUB over the MaxSAT code (weak form, one call level, table for "
              "arithmetic arguments)", w1, ctx)
@@ -677,3 +702,6 @@ def run(ctx, led):
     run_rule(led, "W8", "PB preprocessing only fixes literals whose weight alone exceeds the remaining budget", w8, ctx)
     from . import kernel as _kernel
     _kernel.run_bundle(led, ctx, "W")
+    from . import kernel as _kernel4
+    _kernel4.run_lifecycle(led, ctx, "W")
+    run_rule(led, "W9", "the time limit is interpreted in milliseconds", w9, ctx)
